@@ -47,3 +47,32 @@ pub assume_specification<T, E, F: FnOnce(E) -> T>[ core::result::Result::<T, E>:
     ensures
         res matches Ok(v) ==> r == v,
         res matches Err(e) ==> f.ensures((e,), r);
+
+// ---- Vec::drain / last_mut / extend (allocator_api needed for the Drain type parameters) ----
+#[verifier::external_type_specification]
+#[verifier::external_body]
+#[verifier::reject_recursive_types(T)]
+#[verifier::reject_recursive_types(A)]
+pub struct ExDrain<'a, T: 'a, A: core::alloc::Allocator>(alloc::vec::Drain<'a, T, A>);
+
+pub assume_specification<'a, T, A: core::alloc::Allocator, R: core::ops::RangeBounds<usize>>[ alloc::vec::Vec::<T, A>::drain ](v: &'a mut Vec<T, A>, r: R) -> (d: alloc::vec::Drain<'a, T, A>)
+    // only used as `drain(..)`: the whole vector is drained
+    ensures drain_items(&d) == old(v)@, d.remaining() == old(v)@, final(v)@ == Seq::<T>::empty(), d.obeys_prophetic_iter_laws(), d.will_return_none(), d.decrease() is Some;
+/// the elements a `Drain` will yield (non-prophetic name for use in ordinary specs)
+pub uninterp spec fn drain_items<'a, T, A: core::alloc::Allocator>(d: &alloc::vec::Drain<'a, T, A>) -> Seq<T>;
+
+/// rule R9: `dst.extend(src.drain(..).map(f))` is rewritten to `vp_extend_map(&mut dst, src.drain(..), f)`
+#[verifier::external_body]
+pub fn vp_extend_map<'b, T, U, F: FnMut(T) -> U>(dst: &mut Vec<U>, src: alloc::vec::Drain<'b, T>, f: F)
+    requires forall|x: T| f.requires((x,)),
+    ensures
+        final(dst)@.len() == old(dst)@.len() + drain_items(&src).len(),
+        forall|k: int| 0 <= k < old(dst)@.len() ==> final(dst)@[k] == old(dst)@[k],
+        forall|k: int| 0 <= k < drain_items(&src).len() ==> f.ensures((drain_items(&src)[k],), #[trigger] final(dst)@[old(dst)@.len() + k]),
+{ unimplemented!() }
+
+/// a vector of non-zero-sized elements holds fewer than usize::MAX elements (allocation limit isize::MAX bytes)
+#[verifier::external_body]
+pub proof fn axiom_vec_len_bound<T>(v: &Vec<T>)
+    ensures v@.len() < usize::MAX,
+{}
